@@ -3,7 +3,9 @@ package interp
 import (
 	"go/ast"
 	"go/build"
+	"go/build/constraint"
 	"go/parser"
+	"io"
 	"path"
 	"path/filepath"
 	"strconv"
@@ -19,70 +21,48 @@ func (interp *Interpreter) buildOk(ctx *build.Context, name, src string) (bool, 
 	if err != nil {
 		return false, err
 	}
+	// Collect the build constraint lines found before the package clause, and
+	// evaluate them as the Go toolchain does: a //go:build line, if any,
+	// supersedes the // +build lines.
+	var goBuild, plusBuild []string
 	for _, g := range f.Comments {
-		// in file, evaluate the AND of multiple line build constraints
-		for _, line := range strings.Split(strings.TrimSpace(g.Text()), "\n") {
-			if !buildLineOk(ctx, line) {
-				return false, nil
+		for _, c := range g.List {
+			switch {
+			case constraint.IsGoBuild(c.Text):
+				goBuild = append(goBuild, c.Text)
+			case constraint.IsPlusBuild(c.Text):
+				plusBuild = append(plusBuild, c.Text)
 			}
+		}
+	}
+	lines := goBuild
+	if len(lines) == 0 {
+		lines = plusBuild
+	}
+	if len(lines) > 0 {
+		header := strings.Join(lines, "\n") + "\n\npackage p\n"
+		if ok, err := matchFile(ctx, "src.go", header); !ok || err != nil {
+			return false, err
 		}
 	}
 	setYaegiTags(ctx, f.Comments)
 	return true, nil
 }
 
-// buildLineOk returns true if line is not a build constraint or
-// if build constraint is satisfied.
-func buildLineOk(ctx *build.Context, line string) (ok bool) {
-	if len(line) < 7 || line[:7] != "+build " {
-		return true
-	}
-	// In line, evaluate the OR of space-separated options
-	options := strings.Split(strings.TrimSpace(line[6:]), " ")
-	for _, o := range options {
-		if ok = buildOptionOk(ctx, o); ok {
-			break
+// matchFile reports whether the Go toolchain would select a file with the given base name
+// and content in the build context ctx.
+func matchFile(ctx *build.Context, name, src string) (bool, error) {
+	c := *ctx
+	if len(c.ReleaseTags) > 0 {
+		// A release implies all previous ones, even if the context only names the last one.
+		tags := make([]string, 0, goMinorVersion(ctx))
+		for i := 1; i <= goMinorVersion(ctx); i++ {
+			tags = append(tags, "go1."+strconv.Itoa(i))
 		}
+		c.ReleaseTags = tags
 	}
-	return ok
-}
-
-// buildOptionOk return true if all comma separated tags match, false otherwise.
-func buildOptionOk(ctx *build.Context, tag string) bool {
-	// in option, evaluate the AND of individual tags
-	for _, t := range strings.Split(tag, ",") {
-		if !buildTagOk(ctx, t) {
-			return false
-		}
-	}
-	return true
-}
-
-// buildTagOk returns true if a build tag matches, false otherwise
-// if first character is !, result is negated.
-func buildTagOk(ctx *build.Context, s string) (r bool) {
-	not := s[0] == '!'
-	if not {
-		s = s[1:]
-	}
-	switch {
-	case contains(ctx.BuildTags, s):
-		r = true
-	case s == ctx.GOOS:
-		r = true
-	case s == ctx.GOARCH:
-		r = true
-	case len(s) > 4 && s[:4] == "go1.":
-		if n, err := strconv.Atoi(s[4:]); err != nil {
-			r = false
-		} else {
-			r = goMinorVersion(ctx) >= n
-		}
-	}
-	if not {
-		r = !r
-	}
-	return
+	c.OpenFile = func(string) (io.ReadCloser, error) { return io.NopCloser(strings.NewReader(src)), nil }
+	return c.MatchFile(".", name)
 }
 
 // setYaegiTags scans a comment group for "yaegi:tags tag1 tag2 ..." lines
@@ -134,70 +114,14 @@ func skipFile(ctx *build.Context, p string, skipTest bool) bool {
 	if !strings.HasSuffix(p, ".go") {
 		return true
 	}
-	p = strings.TrimSuffix(path.Base(p), ".go")
-	if pp := filepath.Base(p); strings.HasPrefix(pp, "_") || strings.HasPrefix(pp, ".") {
+	base := path.Base(p)
+	if pp := filepath.Base(base); strings.HasPrefix(pp, "_") || strings.HasPrefix(pp, ".") {
 		return true
 	}
-	if skipTest && strings.HasSuffix(p, "_test") {
+	if skipTest && strings.HasSuffix(strings.TrimSuffix(base, ".go"), "_test") {
 		return true
 	}
-	i := strings.Index(p, "_")
-	if i < 0 {
-		return false
-	}
-	a := strings.Split(p[i+1:], "_")
-	last := len(a) - 1
-	if last-1 >= 0 {
-		switch x, y := a[last-1], a[last]; {
-		case x == ctx.GOOS:
-			if knownArch[y] {
-				return y != ctx.GOARCH
-			}
-			return false
-		case knownOs[x] && knownArch[y]:
-			return true
-		case knownArch[y] && y != ctx.GOARCH:
-			return true
-		default:
-			return false
-		}
-	}
-	if x := a[last]; knownOs[x] && x != ctx.GOOS || knownArch[x] && x != ctx.GOARCH {
-		return true
-	}
-	return false
-}
-
-var knownOs = map[string]bool{
-	"aix":       true,
-	"android":   true,
-	"darwin":    true,
-	"dragonfly": true,
-	"freebsd":   true,
-	"illumos":   true,
-	"ios":       true,
-	"js":        true,
-	"linux":     true,
-	"netbsd":    true,
-	"openbsd":   true,
-	"plan9":     true,
-	"solaris":   true,
-	"wasip1":    true,
-	"windows":   true,
-}
-
-var knownArch = map[string]bool{
-	"386":      true,
-	"amd64":    true,
-	"arm":      true,
-	"arm64":    true,
-	"loong64":  true,
-	"mips":     true,
-	"mips64":   true,
-	"mips64le": true,
-	"mipsle":   true,
-	"ppc64":    true,
-	"ppc64le":  true,
-	"s390x":    true,
-	"wasm":     true,
+	// Apply the GOOS and GOARCH file name rules of the Go toolchain.
+	ok, err := matchFile(ctx, base, "package p\n")
+	return !ok || err != nil
 }
